@@ -51,6 +51,7 @@ Inductive micro :=
   | MRecvPost (h : nat) (log : bool)
   | MRecv (h : nat)
   | MTryRecv (h : nat)
+  | MTryRecvPost (h : nat)
   | MDropRx (h : nat)
   | MCellRead (u : nat)
   | MCellWrite (u : nat) (v : N)
